@@ -21,6 +21,8 @@ type Runtime interface {
 	Yield(site string)
 	Lock(l sync.Locker, site string)
 	Unlock(l sync.Locker)
+	RLock(l *sync.RWMutex, site string)
+	RUnlock(l *sync.RWMutex)
 	Send(ch reflect.Value, v reflect.Value, site string)
 	Recv(ch reflect.Value, site string) (reflect.Value, bool)
 	Close(ch reflect.Value)
@@ -72,6 +74,25 @@ func Unlock(l sync.Locker) {
 		return
 	}
 	rt.Unlock(l)
+}
+
+// RLock replaces l.RLock() of a sync.RWMutex (Lock/Unlock of an RWMutex go
+// through Lock/Unlock above).
+func RLock(l *sync.RWMutex, site string) {
+	if rt == nil {
+		l.RLock()
+		return
+	}
+	rt.RLock(l, site)
+}
+
+// RUnlock replaces l.RUnlock().
+func RUnlock(l *sync.RWMutex) {
+	if rt == nil {
+		l.RUnlock()
+		return
+	}
+	rt.RUnlock(l)
 }
 
 func valueFor(ch reflect.Value, v any) reflect.Value {
